@@ -25,7 +25,7 @@ def sh(cmd, timeout=1800, cwd=None, env=None):
 def main():
     pid, seed = sys.argv[1], sys.argv[2].rstrip('/')
     extra = sys.argv[3:]
-    out = os.path.join(seed, 'out')
+    out = os.path.join(seed, 'out') if os.path.isdir(os.path.join(seed, 'out')) else seed
     patch = os.path.join(out, 'patch.diff')
     wt = '/tmp/try-%s-%d' % (pid, os.getpid())
     res = {'property': pid, 'seed_dir': seed}
